@@ -6,7 +6,7 @@ DROPPING = ("filter", "take", "skip", "take_while", "skip_while", "step_by", "ma
 
 def run(ctx, rep):
     r = rep.rule("R-C13-dir", "checking a directory is checking the list of its entries: the iterator chain from read_dir to the returned Vec only "
-                              "drops unreadable entries (Err), and create_project pushes every enumerated path into the project", floor=3)
+                              "drops unreadable entries (Err), and create_project pushes every enumerated path into the project", floor=4)
     eb = ctx.prog.get("ironplcc::cli::enumerate_files")
     cb = ctx.prog.get("ironplcc::cli::create_project")
     if not eb or not cb:
@@ -18,6 +18,38 @@ def run(ctx, rep):
     if len(rd) != 1:
         r.finding("enumerate_files|read_dir-calls=%d" % len(rd), where, "expected exactly one read_dir")
         return
+    # one spelling per file: the directory that is listed and the file that is returned are the *canonical* path - a file reached
+    # as a directory member and as an argument of its own must get the same name (the project de-duplicates by that text)
+    canon = [c for c in b.calls() if c.callee == "std::fs::canonicalize"]
+    tainted = set()
+    if canon:
+        tainted = {canon[0].dest[0]}
+        grew = True
+        while grew:
+            grew = False
+            for i, j, st in b.all_stmts():
+                if st[0] == "=" and not st[1][1] and st[1][0] not in tainted:
+                    srcs = []
+                    rv = st[2]
+                    if rv[0] in ("use", "cast"):
+                        srcs = [op_place(rv[1] if rv[0] == "use" else rv[2])]
+                    elif rv[0] == "ref":
+                        srcs = [rv[2]]
+                    if any(sp is not None and sp[0] in tainted for sp in srcs):
+                        tainted.add(st[1][0])
+                        grew = True
+            for c in b.calls():
+                if c.dest[0] not in tainted and not c.dest[1] and any(op_place(a) is not None and op_place(a)[0] in tainted for a in c.args) \
+                        and (c.callee or c.u or "").split("::")[-1] in ("branch", "map_err", "deref", "as_ref", "borrow", "as_path", "clone", "to_path_buf", "unwrap", "into", "from"):
+                    tainted.add(c.dest[0])
+                    grew = True
+    ra = op_place(rd[0].args[0]) if rd[0].args else None
+    if canon and ra is not None and (ra[0] in tainted or b.root(ra)[0] in tainted):
+        r.ok("enumerate_files|read_dir lists the canonical path", loc_str(b.f, rd[0].loc))
+    else:
+        r.finding("enumerate_files|read_dir-of-uncanonical-path", loc_str(b.f, rd[0].loc),
+                  "the directory is listed under the spelling the user typed while file arguments are canonicalised: the same file gets two names "
+                  "(`check d1 d1/a.st` loads a.st twice and reports a duplicate declaration)")
     # follow the value: read_dir -> (map_err/?/into_iter) -> adapters -> collect
     chain = []
     cur = rd[0].dest[0]
